@@ -1216,6 +1216,9 @@ func (ctx *RenderContext) getItem(container, index interface{}) (interface{}, er
 			// Convert the index to the map's key type if possible
 			keyType := v.Type().Key()
 			indexValue := reflect.ValueOf(index)
+			if !indexValue.IsValid() {
+				return nil, nil // A nil key matches nothing
+			}
 
 			if indexValue.Type().ConvertibleTo(keyType) {
 				mapKey = indexValue.Convert(keyType)
